@@ -7,7 +7,7 @@ out=$1; tier=$2; shift 2
 for seed in "$@"; do
 for i in $(seq -w 1 20); do
   t0=$(date +%s)
-  res=$(VERIF_SEED=$seed VERIF_SCRATCH=sweep ./check C$i $tier 2>&1 | grep -E "^(VIOLATION|INCONCLUSIVE|HELD|KNOWN)" | head -3 | cut -c1-300)
+  res=$(VERIF_SEED=$seed VERIF_SCRATCH=sweep ./check C$i $tier 2>&1 | grep -a -E "^(VIOLATION|INCONCLUSIVE|HELD|KNOWN)" | head -3 | cut -c1-300)
   echo "C$i $tier seed=$seed $(( $(date +%s)-t0 ))s :: $res" >> $out
 done
 done
